@@ -81,27 +81,32 @@ def transport_tables() -> list[str]:
     if [w for _, w in locs] != ["headers", "params", "cookies"]:
         raise TranslatorError(f"ApiKeyAuth locations changed shape: {locs}")
 
-    def bearer_parts(cls: str) -> tuple[str, str]:
-        f = _find_func(_find_class(mod, cls), "authenticate_request")
-        for s in ast.walk(f):
-            if (isinstance(s, ast.Assign) and isinstance(s.targets[0], ast.Subscript)
-                    and isinstance(s.targets[0].slice, ast.Constant) and isinstance(s.value, ast.JoinedStr)):
-                js = s.value
-                if len(js.values) == 2 and isinstance(js.values[0], ast.Constant):
-                    return s.targets[0].slice.value, js.values[0].value
-        raise TranslatorError(f"{cls}: Authorization f-string not found")
+    def header_fstrings(fn: ast.AST) -> list[tuple[str, str]]:
+        """(header name, literal prefix) of every `set_header(<dict>, "<name>", f"<prefix>{...}")` call and of every
+        `<dict>["<name>"] = f"<prefix>{...}"` assignment in fn"""
+        out = []
+        for s in ast.walk(fn):
+            name = val = None
+            if (isinstance(s, ast.Call) and isinstance(s.func, ast.Name) and s.func.id == "set_header"
+                    and len(s.args) == 3 and isinstance(s.args[1], ast.Constant)):
+                name, val = s.args[1].value, s.args[2]
+            elif (isinstance(s, ast.Assign) and isinstance(s.targets[0], ast.Subscript)
+                  and isinstance(s.targets[0].slice, ast.Constant)):
+                name, val = s.targets[0].slice.value, s.value
+            if (isinstance(val, ast.JoinedStr) and len(val.values) == 2 and isinstance(val.values[0], ast.Constant)):
+                out.append((name, val.values[0].value))
+        return out
 
-    b1, b2 = bearer_parts("BearerAuth"), bearer_parts("OAuth2Auth")
+    def bearer_parts(fn: ast.AST, what: str) -> tuple[str, str]:
+        found = header_fstrings(fn)
+        if len(found) != 1:
+            raise TranslatorError(f"{what}: expected exactly one Authorization f-string, found {found}")
+        return found[0]
+
+    b1 = bearer_parts(_find_func(_find_class(mod, "BearerAuth"), "authenticate_request"), "BearerAuth")
+    b2 = bearer_parts(_find_func(_find_class(mod, "OAuth2Auth"), "authenticate_request"), "OAuth2Auth")
     tmod = _parse("core/http_transport.py")
-    prep = _find_func(_find_class(tmod, "HttpxTransport"), "_prepare_headers")
-    b3 = None
-    for s in ast.walk(prep):
-        if (isinstance(s, ast.Assign) and isinstance(s.targets[0], ast.Subscript)
-                and isinstance(s.targets[0].slice, ast.Constant) and isinstance(s.value, ast.JoinedStr)
-                and len(s.value.values) == 2 and isinstance(s.value.values[0], ast.Constant)):
-            b3 = (s.targets[0].slice.value, s.value.values[0].value)
-    if b3 is None:
-        raise TranslatorError("_prepare_headers: bearer f-string not found")
+    b3 = bearer_parts(_find_func(_find_class(tmod, "HttpxTransport"), "_prepare_headers"), "_prepare_headers")
     if not (b1 == b2 == b3):
         raise TranslatorError(f"bearer header/prefix differ between sites: {b1} {b2} {b3}")
     return [
